@@ -6,6 +6,7 @@ mod refserver;
 mod rep;
 mod seal;
 mod wire;
+mod cloudconc;
 mod store;
 mod task;
 
@@ -405,6 +406,120 @@ fn run_backend(args: &Args) {
     std::fs::write(args.out.join("stats.json"), format!("{{{}}}\n", body.join(", "))).unwrap();
 }
 
+fn run_cloudconc(args: &Args) {
+    std::fs::create_dir_all(&args.out).unwrap();
+    let mut ops = std::io::BufWriter::new(std::fs::File::create(args.out.join("ops.txt")).unwrap());
+    let mut imp = std::io::BufWriter::new(std::fs::File::create(args.out.join("impl.out")).unwrap());
+    let mut stats: std::collections::HashMap<String, u64> = std::collections::HashMap::new();
+    let cleanup = args.flags.iter().any(|f| f == "--cleanup");
+    let mut cases: Vec<(String, Option<Vec<String>>, Rng, usize)> = Vec::new();
+    let mut files: Vec<PathBuf> = Vec::new();
+    if let Some(r) = &args.replay {
+        files.push(r.clone());
+    } else if let Some(c) = &args.corpus {
+        if let Ok(rd) = std::fs::read_dir(c) {
+            let mut fs: Vec<PathBuf> = rd.filter_map(|e| e.ok().map(|e| e.path())).collect();
+            fs.sort();
+            files.extend(fs);
+        }
+    }
+    for f in &files {
+        for (ci, (_, lines)) in read_cases(f).into_iter().enumerate() {
+            let name = f.file_name().unwrap().to_string_lossy().to_string();
+            if args.replay.is_none() && cleanup != lines.iter().any(|l| l.contains(" CLEAN")) {
+                continue;
+            }
+            cases.push((format!("# case corpus:{}#{}", name, ci), Some(lines), Rng::new(0), 0));
+        }
+    }
+    if args.replay.is_none() {
+        let mut rng = Rng::new(args.seed);
+        for i in 0..args.cases {
+            let mut crng = rng.fork();
+            let len = 10 + crng.below(args.max_len as u64) as usize;
+            cases.push((format!("# case {} seed={}", i, args.seed), None, crng, len));
+        }
+    }
+    for (hdr, fixed, mut crng, len) in cases {
+        let r = std::panic::catch_unwind(std::panic::AssertUnwindSafe(|| {
+            let mut lines: Vec<String> = Vec::new();
+            let mut outs: Vec<String> = Vec::new();
+            let (n, todo): (usize, Option<Vec<String>>) = match &fixed {
+                Some(ls) => {
+                    let n = ls.iter().find_map(|l| l.strip_prefix("CLIENTS ").and_then(|x| x.trim().parse().ok())).unwrap_or(2);
+                    (n, Some(ls.iter().filter(|l| !l.starts_with("CLIENTS") && !l.starts_with("END")).map(|l| l.split(" :: ").next().unwrap().to_string()).collect()))
+                }
+                None => (2 + crng.below(3) as usize, None),
+            };
+            let mut run = cloudconc::Conc::new(n);
+            lines.push(format!("CLIENTS {}", n));
+            outs.push(String::new());
+            let mut g = cloudconc::ConcGen { n, acked: Vec::new(), nd: 0, cleanup };
+            let mut feed = |l: String, run: &mut cloudconc::Conc, g: &mut cloudconc::ConcGen, lines: &mut Vec<String>, outs: &mut Vec<String>| {
+                let (nl, o) = run.exec(&l);
+                for e in nl.split(" :: ") {
+                    if let Some(rest) = e.strip_prefix("ret ") {
+                        let t: Vec<&str> = rest.split(' ').collect();
+                        if t.len() >= 3 && t[1] == "ok" {
+                            g.acked.push(t[2].to_string());
+                        }
+                    }
+                }
+                lines.push(nl);
+                outs.push(o);
+            };
+            match todo {
+                Some(ls) => {
+                    for l in ls {
+                        feed(l, &mut run, &mut g, &mut lines, &mut outs);
+                    }
+                }
+                None => {
+                    for _ in 0..len {
+                        let l = cloudconc::gen_line(&mut g, &run, &mut crng);
+                        feed(l, &mut run, &mut g, &mut lines, &mut outs);
+                    }
+                    // let everybody finish, in random order
+                    let mut guard = 0;
+                    while (0..n).any(|c| run.busy(c)) && guard < 2000 {
+                        let busy: Vec<usize> = (0..n).filter(|c| run.busy(*c)).collect();
+                        let c = *crng.pick(&busy[..]);
+                        feed(format!("STEP {}", c), &mut run, &mut g, &mut lines, &mut outs);
+                        guard += 1;
+                    }
+                }
+            }
+            feed("END".to_string(), &mut run, &mut g, &mut lines, &mut outs);
+            cloudconc::annotate_lists(&mut lines);
+            (lines, outs, run.stats.clone())
+        }));
+        writeln!(ops, "{}", hdr).unwrap();
+        writeln!(imp, "{}", hdr).unwrap();
+        match r {
+            Ok((lines, outs, st)) => {
+                for (l, o) in lines.iter().zip(outs.iter()) {
+                    writeln!(ops, "{}", l).unwrap();
+                    writeln!(imp, "> {}", l).unwrap();
+                    if !o.is_empty() {
+                        writeln!(imp, "{}", o).unwrap();
+                    }
+                }
+                for (k, v) in st {
+                    *stats.entry(k).or_insert(0) += v;
+                }
+            }
+            Err(_) => {
+                writeln!(imp, "panic").unwrap();
+            }
+        }
+        *stats.entry("cases".into()).or_insert(0) += 1;
+    }
+    let mut keys: Vec<&String> = stats.keys().collect();
+    keys.sort();
+    let body: Vec<String> = keys.iter().map(|k| format!("\"{}\": {}", k, stats[*k])).collect();
+    std::fs::write(args.out.join("stats.json"), format!("{{{}}}\n", body.join(", "))).unwrap();
+}
+
 fn run_wire(args: &Args) {
     std::fs::create_dir_all(&args.out).unwrap();
     let mut ops = std::io::BufWriter::new(std::fs::File::create(args.out.join("ops.txt")).unwrap());
@@ -675,6 +790,7 @@ fn main() {
         "seal" => run_seal(&args),
         "backend" => run_backend(&args),
         "wire" => run_wire(&args),
+        "cloudconc" => run_cloudconc(&args),
         f => {
             eprintln!("unknown family {}", f);
             std::process::exit(2);
